@@ -1,6 +1,7 @@
 import Qv.Gen.Source
 import Qv.Model.Convert
 import Mathlib.Tactic.Ring
+import Qv.Gen.Interp
 /-!
 # GenEq.Convert — generated `is_solution_spin` and the per-term updates of `qubo_to_quso` /
 `quso_to_qubo` equal the model's `isSolutionSpin`, `quboToQusoTerm`, `qusoToQuboTerm` (C04)
@@ -42,13 +43,6 @@ example : is_solution_spin [1, 0, -1] true true = false := by decide +kernel
 example : is_solution_spin [1, 1] true true = true := by decide +kernel
 
 /-! ## per-term updates of the closed-form conversions -/
-
-/-- `L[key] += c` for each recorded update, in order (the meaning of the translator's `store` rule) -/
-def applyUpdates (sq : Sq) (L : Poly) : List (Key × Rat) → Except Err Poly
-  | [] => pure L
-  | (key, c) :: r => do
-    let L' ← addTerm sq L key c
-    applyUpdates sq L' r
 
 theorem ok_bind {α β : Type} (a : α) (f : α → Except Err β) : (Except.ok a >>= f) = f a := rfl
 theorem error_bind {α β : Type} (e : Err) (f : α → Except Err β) : (Except.error e >>= f) = .error e := rfl
